@@ -21,6 +21,7 @@ func init() {
 	register("C02", func(c *Ctx, r *Report) {
 		r.Decides("gNMI scalar wrapper produced per YANG kind is accepted by the decoder; every key kind has a string form and both parsers; every leaf-list element kind is encodable.",
 			"empty leaf-list acceptance, prefixes, ordering of ordered lists, value-level fidelity.")
+		ruleChoiceTagLookup(c, r)
 		ruleTablesGNMI(c, r)
 		ruleUnionConv(c, r)
 		ruleTablesKeys(c, r)
@@ -435,6 +436,7 @@ func init() {
 	register("C10", func(c *Ctx, r *Report) {
 		r.Decides("the structural half of set-then-get: the SetNode value is written only where the path is exhausted, with the addressed field's schema and parent; all other writes of the retrieveNode family are creation/deletion gated by flags; list entries created along the path get their key leaves from the path's key strings through the per-kind parsers, which agree with the key renderer for every key kind; payloads are decoded per kind with every parse error returned and no lossy float→integer conversion; '*' and missing keys select several entries only under GetNode's explicit options.",
 			"that GetNode returns exactly the stored value for every payload (value level); the frame condition for all trees beyond the write-site rule; sequences of sets.")
+		ruleChoiceTagLookup(c, r)
 		ruleSetAtTarget(c, r)
 		ruleWriteGated(c, r)
 		ruleWriteThrough(c, r)
